@@ -2,10 +2,15 @@
     [identity_program]: mem[0..32) := 0x11..11; CALL the identity precompile 0x04 with that word as
     input (no output range); overwrite mem[0..32) with 0x22..22; RETURNDATACOPY the 32 bytes of
     return data to mem[64..96) and return them.  By the EVM specification (return data is a copy)
-    the result is 0x11..11 — this is what the model computes below.  The real KVM returns 0x22..22:
-    kvm/contracts.go dataCopy.Run returns its input slice uncopied, so RETURNDATA aliases the
-    caller's memory (geth CVE-2020-26241).  This is the recorded known finding
-    [kvm-identity-returndata-aliased]; the harness family boundary:identity-returndata exhibits it. *)
+    the result is 0x11..11 — this is what the model computes below, and what the real KVM returns
+    since /repo commit 8287a54 (kvm/contracts.go dataCopy.Run returns common.CopyBytes(in); before
+    that it returned its input slice uncopied, RETURNDATA aliased the caller's memory and the
+    program returned 0x22..22 — geth CVE-2020-26241, recorded as the fixed finding
+    kvm-identity-returndata-aliased).  The harness family boundary:identity-returndata keeps a direct
+    oracle on this program shape, so a regression of the fix is reported with the failing input.
+    The general statements are in ProofsRet.v: a call to 0x04 hands back exactly the bytes that were
+    in memory when it was made ([exec_identity_ret]) and no instruction other than the CALL family
+    and CREATE/CREATE2 changes a frame's return data ([returndata_stable_run]). *)
 From Coq Require Import List ZArith Bool.
 From Kardia Require Import C10.U256 C10.EVM Generated.C10Facts.
 Import ListNotations.
